@@ -5,7 +5,13 @@
 (*   input side  (syntax error planted at some byte; the translation fails    *)
 (*                for every streaming target): the text is the parser's own   *)
 (*                - identical for the JSON, YAML and MessagePack targets and  *)
-(*                free of the synthetic 'translation failed'.                 *)
+(*                free of the synthetic 'translation failed'.  The reference  *)
+(*                is the MessagePack target, which can write anything a       *)
+(*                parser yields; a target that fails EARLIER, on something    *)
+(*                the damaged text now denotes and it cannot represent (YAML  *)
+(*                '{]a: 1}' opens a mapping whose first key is a mapping:     *)
+(*                JSON refuses the key before the parser reaches the ']'),    *)
+(*                has failed on the output side and must read like that.      *)
 (*   output side (a value the target cannot represent, or a writer that       *)
 (*                starts failing at byte k): an error is returned and, once   *)
 (*                the synthetic part is removed, the serializer's own reason  *)
